@@ -341,6 +341,16 @@ pub fn gen_vyp(rng: &mut Rng, zones: &[String], sum: &mut SysSummary, allow_unkn
     out
 }
 
+/// a small integer code, written bare (as in the shipped files) or quoted
+fn code(rng: &mut Rng, b: ABlock, attr: &str, n: u64) -> ABlock {
+    let v = rng.below(n);
+    if rng.chance(0.5) {
+        b.num(attr, v as f32)
+    } else {
+        b.s(attr, &format!("{}", v))
+    }
+}
+
 /// CALENER-GT section: BDL text of loops, pumps, plant equipment, air systems and zones
 pub fn gen_gt(rng: &mut Rng, spaces: &[String], sum: &mut SysSummary, allow_unknown: bool) -> String {
     let mut blocks: Vec<ABlock> = vec![];
@@ -408,7 +418,7 @@ pub fn gen_gt(rng: &mut Rng, spaces: &[String], sum: &mut SysSummary, allow_unkn
             1 => {
                 let mut b = ABlock::new(&format!("Caldera {}", i), "BOILER").w("TYPE", *rng.pick(&["HW-BOILER", "ELEC-HW-BOILER", "HW-BOILER-W/DRAFT"])).num("C-C-CAPACITY", rng.dec(5.0, 900.0, 1) as f32).s("HW-LOOP", &any_loop(rng, &loops));
                 if rng.chance(0.7) {
-                    b = b.num("C-C-SUBTYPE", (1 + rng.below(5)) as f32);
+                    b = if rng.chance(0.5) { b.num("C-C-SUBTYPE", (1 + rng.below(5)) as f32) } else { b.s("C-C-SUBTYPE", &format!("{}", 1 + rng.below(5))) };
                 }
                 if rng.chance(0.5) {
                     b = b.num("C-THERM-EFF-MAX", rng.dec(0.6, 1.08, 2) as f32).num("C-AFUE", rng.dec(0.6, 1.0, 2) as f32).s("FUEL-METER", meters[rng.usize(4)]);
@@ -423,7 +433,7 @@ pub fn gen_gt(rng: &mut Rng, spaces: &[String], sum: &mut SysSummary, allow_unkn
                 let k = *rng.pick(&["GAS", "ELEC", "HEAT-PUMP"]);
                 let mut b = ABlock::new(&format!("Calentador ACS {}", i), "DW-HEATER").w("TYPE", k).num("C-C-CAPACITY", rng.dec(1.0, 200.0, 1) as f32).s("DHW-LOOP", &any_loop(rng, &loops));
                 if rng.chance(0.5) {
-                    b = b.num("C-CATEGORY", rng.below(2) as f32).num("TANK-VOLUME", rng.dec(30.0, 3000.0, 0) as f32);
+                    b = code(rng, b, "C-CATEGORY", 2).num("TANK-VOLUME", rng.dec(30.0, 3000.0, 0) as f32);
                 }
                 if rng.chance(0.3) {
                     b = b.num("TANK-UA", rng.dec(0.5, 20.0, 2) as f32).num("C-STBY-LOSS-FRAC", rng.dec(0.5, 3.0, 2) as f32).num("C-ENERGY-FACTOR", rng.dec(0.5, 1.0, 2) as f32).s("DHW-PUMP", &pumps[rng.usize(np)]);
@@ -529,7 +539,8 @@ pub fn gen_gt(rng: &mut Rng, spaces: &[String], sum: &mut SysSummary, allow_unkn
             b = b.s("BBRD-LOOP", &any_loop(rng, &loops)).num("BBRD-COIL-DT", rng.dec(5.0, 20.0, 1) as f32);
         }
         if rng.chance(0.3) {
-            b = b.num("C-C-ENF-GRAT", rng.below(3) as f32).num("C-C-OA-CONTROL", rng.below(2) as f32);
+            b = code(rng, b, "C-C-ENF-GRAT", 3);
+            b = code(rng, b, "C-C-OA-CONTROL", 2);
         }
         if rng.chance(0.3) {
             b = b.w("RECOVER-EXHAUST", *rng.pick(&["YES", "NO"])).num("ERV-SENSIBLE-EFF", rng.dec(0.3, 0.9, 2) as f32);
@@ -546,10 +557,10 @@ pub fn gen_gt(rng: &mut Rng, spaces: &[String], sum: &mut SysSummary, allow_unkn
             let sp = if spaces.is_empty() { "P01_E01".to_string() } else { spaces[rng.usize(spaces.len())].clone() };
             let mut z = ABlock::new(zn, "ZONE").w("TYPE", *rng.pick(&["CONDITIONED", "CONDITIONED", "PLENUM", "UNCONDITIONED"])).s("SPACE", &sp);
             if rng.chance(0.5) {
-                z = z.num("C-C-PROP-ZR-1", rng.below(2) as f32).num("C-C-EXH-FLOW", rng.dec(0.0, 900.0, 0) as f32).num("C-C-EXH-KW", rng.dec(0.0, 2.0, 2) as f32);
+                z = code(rng, z, "C-C-PROP-ZR-1", 2).num("C-C-EXH-FLOW", rng.dec(0.0, 900.0, 0) as f32).num("C-C-EXH-KW", rng.dec(0.0, 2.0, 2) as f32);
             }
             if rng.chance(0.6) {
-                z = z.num("C-C-OA-MET-DEF", rng.below(3) as f32).num("C-C-OA-FLOW", rng.dec(0.0, 900.0, 0) as f32).num("C-C-OA-FLOW/PER", rng.dec(0.0, 60.0, 1) as f32);
+                z = code(rng, z, "C-C-OA-MET-DEF", 3).num("C-C-OA-FLOW", rng.dec(0.0, 900.0, 0) as f32).num("C-C-OA-FLOW/PER", rng.dec(0.0, 60.0, 1) as f32);
             }
             if rng.chance(0.5) {
                 z = z.s("HEAT-TEMP-SCH", "Consigna calefacción").s("COOL-TEMP-SCH", "Consigna refrigeración").num("C-C-ASSIG-FLOW", rng.dec(50.0, 5000.0, 0) as f32);
